@@ -21,6 +21,12 @@ def u64(b):
     return struct.unpack('>Q', b)[0]
 
 
+class DMBoom(Exception):
+    """Raised by the data manager itself when a fault is armed (a refused
+    read dependency: what a data manager does when the transaction is
+    already doomed)."""
+
+
 class ConflictError(Exception):
     def __init__(self, kind, oid=None, reason=None, detail=None):
         Exception.__init__(self, kind, oid, reason, detail)
@@ -31,28 +37,43 @@ class ConflictError(Exception):
 
 
 class PersistentReference:
-    """Stand-in for a persistent sub-object during conflict resolution:
-    equal iff same oid, refuses ordering (ZODB's contract)."""
+    """Stand-in for a persistent sub-object during conflict resolution.
+    ZODB's contract (ZODB.ConflictResolution.PersistentReference): equal to
+    a reference to the same object, and EVERY other comparison - also == and
+    != with a different reference or with anything else - raises ValueError
+    ("can't reliably compare against different PersistentReferences")."""
     __slots__ = ('oid', 'cls')
 
     def __init__(self, oid, cls):
         self.oid = oid
         self.cls = cls
 
+    def _same(self, other):
+        if self is other or (isinstance(other, PersistentReference) and
+                             self.oid == other.oid):
+            return True
+        raise ValueError("can't reliably compare against different "
+                         "PersistentReferences")
+
     def __eq__(self, other):
-        return isinstance(other, PersistentReference) and \
-            self.oid == other.oid
+        return self._same(other)
 
     def __ne__(self, other):
-        return not self.__eq__(other)
+        return not self._same(other)
 
     def __hash__(self):
         return hash(self.oid)
 
     def _bad(self, other):
-        raise ValueError("can't reliably compare persistent references")
+        self._same(other)
+        return False
 
-    __lt__ = __le__ = __gt__ = __ge__ = _bad
+    def _bad_eq(self, other):
+        self._same(other)
+        return True
+
+    __lt__ = __gt__ = _bad
+    __le__ = __ge__ = _bad_eq
 
     def __repr__(self):
         return 'PR(%d)' % u64(self.oid)
@@ -134,7 +155,16 @@ class Connection:
         if not any(o is obj for o in self.registered):
             self.registered.append(obj)
 
+    # set to n > 0: the n-th following readCurrent() call raises DMBoom
+    fail_read_current = 0
+
     def readCurrent(self, obj):
+        if self.fail_read_current:
+            self.fail_read_current -= 1
+            if self.fail_read_current == 0:
+                self.read_current_refused = getattr(
+                    self, 'read_current_refused', 0) + 1
+                raise DMBoom('readCurrent refused')
         assert obj._p_jar is self
         oid = obj._p_oid
         assert oid is not None
